@@ -99,4 +99,6 @@ TRUSTED = ["harness reads limbs through uintwide_t::crepresentation() and writes
 ASSUMPTIONS = ["N is the storage width (limb width x limb count), e.g. wide_integer<200,int> is a 224-bit integer",
                "multi-limb wide_integer has no operator~ and no mixed-signedness or mixed-width multi-limb operators (do not compile): outside the quantifier",
                "numeric_limits<wide_integer>::min() returns 1 (library-wide convention, also elastic_integer): modelled, not constrained",
-               "conversion to/from floating point is not covered by this check (needs CnlModel.CFloat)"]
+               "cnl::to_chars on an unsigned multi-limb wide_integer does not compile (no mixed-signedness operator-): only signed instances are observed through to_chars, both through operator<<",
+               "division by zero returns numeric_limits::max() (quotient) / 0 (remainder) without trapping, shifts by counts outside [0, N) fill with zeros or the sign: modelled, not constrained by the property",
+               "conversion to/from floating point is not covered by this check"]
